@@ -24,7 +24,7 @@ LIFE = {
     "C05": ("C05", 400, ()),
     "C06": ("C06", 320, ()),
     "C07": ("C07", 480, ()),
-    "C08": ("C08", 480, ()),
+    "C08": ("C08", 1000, ()),
     "C09": ("C09", 800, ()),
     "C20": ("C20", 320, ()),
 }
